@@ -18,7 +18,7 @@ import (
 	"time"
 )
 
-func init() { VerifPointFn = c01HookFn }
+func init() { VerifPointFn = c01HookFn; c01HookOn.Store(true) }
 
 // c01GenParkOps: like c01GenOps, with parked calls. Race-freedom rules: at most one ForceFlush outstanding; no plain
 // End while one is outstanding; every parked call is released before the script ends (order random).
@@ -106,6 +106,11 @@ func c01GenParkOps(r *vRand, n int) []string {
 		ops = append(ops, "g+")
 	}
 	ops = append(ops, "g+", "g+", "g+", "g+")
+	if r.Intn(2) == 0 {
+		// a Shutdown call after everything was released: if an earlier Shutdown had completed before a parked OnEnd was
+		// released, that span is a late span and this call returns nil without it (known finding F41)
+		ops = append(ops, "s", "g+")
+	}
 	return ops
 }
 
